@@ -388,6 +388,94 @@ func cacheClear(seed uint64) (violation string, cleared int64) {
 	return "", int64(stable)
 }
 
+// cacheReadBuffer is the cache-level half of C17 at the buffer's use sites: every user of the read
+// buffer inside the cache must respect its single-consumer discipline. Readers record reads of present
+// entries while another goroutine alternates InvalidateAll / repopulation, iterations and SetMaximum run
+// (all of them drain the buffer), with an asynchronous executor. At quiescence one CleanUp must leave
+// the buffer empty (everything recorded was delivered), and a read recorded afterwards must be
+// delivered by the next CleanUp.
+func cacheReadBuffer(seed uint64) (violation string, reads int64) {
+	r := core.NewRng(seed)
+	var wg sync.WaitGroup
+	o := &otter.Options[int, int]{
+		ExpiryCalculator: otter.ExpiryWriting[int, int](time.Hour),
+		Executor: func(fn func()) {
+			wg.Add(1)
+			go func() {
+				defer wg.Done()
+				fn()
+			}()
+		},
+	}
+	if r.Chance(1, 2) {
+		o.MaximumSize = 64 + r.Intn(1000)
+	}
+	c, err := otter.New(o)
+	if err != nil {
+		return "cannot build: " + err.Error(), 0
+	}
+	defer c.StopAllGoroutines()
+	otter.VerifSetHook(compHook(seed, []int{0, 20, 100}[r.Intn(3)]))
+	defer otter.VerifSetHook(nil)
+	const keys = 64
+	for k := 0; k < keys; k++ {
+		c.Set(k, k)
+	}
+	var stop atomic.Bool
+	var rd atomic.Int64
+	var workers sync.WaitGroup
+	readers := 2 + r.Intn(12)
+	for g := 0; g < readers; g++ {
+		workers.Add(1)
+		go func(g int) {
+			defer workers.Done()
+			rng := core.NewRng(core.Derive(seed, 3, uint64(g)))
+			for !stop.Load() {
+				c.GetIfPresent(rng.Intn(keys))
+				rd.Add(1)
+				progress.Add(1)
+			}
+		}(g)
+	}
+	workers.Add(1)
+	go func() {
+		defer workers.Done()
+		rng := core.NewRng(core.Derive(seed, 4))
+		for i := 0; i < 40+rng.Intn(200); i++ {
+			switch rng.Intn(6) {
+			case 0, 1, 2:
+				c.InvalidateAll()
+				for k := 0; k < keys; k++ {
+					c.Set(k, k)
+				}
+			case 3:
+				for range c.Coldest() {
+					break
+				}
+			case 4:
+				c.CleanUp()
+			default:
+				c.SetMaximum(uint64(100 + rng.Intn(1000)))
+			}
+		}
+		stop.Store(true)
+	}()
+	workers.Wait()
+	wg.Wait()
+	c.CleanUp()
+	wg.Wait()
+	if n := c.VerifAudit().ReadBufferLen; n != 0 {
+		return fmt.Sprintf("the cache is quiescent and CleanUp ran, but the read buffer still holds %d recorded reads (%d readers read present entries while InvalidateAll, iterations and SetMaximum ran)", n, readers), rd.Load()
+	}
+	c.GetIfPresent(1)
+	c.CleanUp()
+	wg.Wait()
+	if n := c.VerifAudit().ReadBufferLen; n != 0 {
+		return fmt.Sprintf("a read recorded after quiescence is still in the read buffer after a CleanUp (%d reads held)", n), rd.Load()
+	}
+	return "", rd.Load()
+}
+
 // cacheIter is the cache-level half of C15: All / Keys / Values of a real cache iterate while
 // writers replace and invalidate hot keys and churn grows and shrinks the table. A stable key set
 // (never touched) must be yielded exactly once by every iteration; no key twice; a yielded
@@ -1126,6 +1214,26 @@ func RunC17(col *core.Collector, tier, variant string, seed uint64, shard, nshar
 		col.Write(outBase)
 		os.Exit(0)
 	})
+	m := 48
+	if tier == "thorough" {
+		m = 3000
+	}
+	if variant != "plain" {
+		m /= 3
+	}
+	for i := shard; i < m && col.NumViolations() < 5; i += nshards {
+		cs := core.Derive(seed, core.StrLabel("C17cache"), core.StrLabel(variant), uint64(i))
+		wd.Arm()
+		v, reads := cacheReadBuffer(cs)
+		wd.Disarm()
+		col.Eval(1)
+		col.Count("cache_level.scenarios", 1)
+		col.Count("cache_level.reads", reads)
+		if v != "" {
+			path := writeReplay(replayDir, fmt.Sprintf("C17-cache-%x.json", cs), map[string]any{"engine": "cache-readbuffer", "case_seed": cs, "violation": v})
+			col.Violation(core.Violation{Property: "C17", Signature: "cache:" + sigText(v), Detail: v, Replay: path})
+		}
+	}
 	for i := shard; i < n; i += nshards {
 		r := core.NewRng(core.Derive(seed, core.StrLabel("C17"), core.StrLabel(variant), uint64(i)))
 		cfg := stripedCfg{Seed: r.U64(), Index: i,
